@@ -39,6 +39,13 @@ CLAIMED = {
                      "the objects left unmatched. maximize iff IoU mode is part of the contract.",
                 note="Assumes np.nanargmin/nanargmax return an optimal non-NaN cell (ties unspecified). 'Exactly the two-stage greedy assignment without ties' "
                      "follows from step-wise optimality and is not a separate obligation.", ref="5/C02"),
+    "C03": dict(text="is_result_correct and get_status are verified against the statement's definition of a correct pair for every matching mode; "
+                     "get_positive_objects: every result is exactly one of TP / FP, TP exactly the correct ones in order (ghost prefix count), TN pairs re-wrapped; "
+                     "evaluate_frame: call-site obligations that both critical filters receive the same parameters and the frame's transforms, and that pass/fail "
+                     "sees the filtered lists; PassFailResult.evaluate: which lists, which matching mode, which thresholds.",
+                note="Filters are used through named contracts (result = function of all arguments; meaning: C10). get_negative_objects (FN/TN lists) is not "
+                     "under contract: the 'each critical ground truth exactly once' clause rests on the native harness (bounded) only. Metric branches of "
+                     "evaluate_frame are switched off in the verified configuration (pass/fail only).", ref="5/C03"),
 }
 NA_REASON = "check not built yet in this session (planned in DESIGN.md section 5); not claimed"
 ALL = [f"C{n:02d}" for n in range(1, 21)]
